@@ -26,6 +26,10 @@ type Env struct {
 
 type nilSpec struct{}
 
+type errNilDeref struct{ msg string }
+
+func (e errNilDeref) Error() string { return e.msg }
+
 func (e *Env) world() *World {
 	if e.inOld {
 		return e.old
@@ -113,6 +117,37 @@ func (x *Exec) eval1(env *Env, e *Expr) (Val, error) {
 		}
 		env.inOld = save
 		return v, err
+	case "forall":
+		var srt *Sort
+		switch e.Str {
+		case "Int":
+			srt = SInt
+		case "Bool":
+			srt = SBool
+		case "Str":
+			srt = SStr
+		case "Bytes", "Addr":
+			srt = SBytes
+		default:
+			if ds, ok := dataSorts[e.Str]; ok {
+				srt = ds
+			} else {
+				return nil, fmt.Errorf("forall: unknown sort %s", e.Str)
+			}
+		}
+		bv := NewBound(e.Name, srt)
+		saved, had := env.vars[e.Name]
+		env.vars[e.Name] = bv
+		body, err := x.evalBool(env, e.Args[0])
+		if had {
+			env.vars[e.Name] = saved
+		} else {
+			delete(env.vars, e.Name)
+		}
+		if err != nil {
+			return nil, err
+		}
+		return Forall(bv, body), nil
 	case "unop":
 		a, err := x.evalTerm(env, e.Args[0])
 		if err != nil {
@@ -130,6 +165,11 @@ func (x *Exec) eval1(env *Env, e *Expr) (Val, error) {
 			if _, isVar := env.vars[b.Name]; !isVar {
 				if v, ok := x.pkgIdent(env, b.Name, e.Name); ok {
 					return v, nil
+				}
+				if d := x.prog.defines[e.Name]; d != nil && len(d.Params) == 0 {
+					if _, isWorld := env.world().comps[b.Name]; !isWorld {
+						return x.eval1(env, d.Body)
+					}
 				}
 			}
 		}
@@ -158,6 +198,8 @@ func (x *Exec) evalIdent(env *Env, name string) (Val, error) {
 		return BigLit(decOne), nil
 	case "MAXU64":
 		return BigLit(new(big.Int).Sub(two64, big.NewInt(1))), nil
+	case "txbytes":
+		return Sym("w0_txbytes", SBytes), nil
 	case "MAXI64":
 		return BigLit(new(big.Int).Sub(two63, big.NewInt(1))), nil
 	}
@@ -270,6 +312,10 @@ func (x *Exec) evalField(env *Env, base Val, name string) (Val, error) {
 			}
 		}
 	}
+	switch base.(type) {
+	case *NilPtr, nilSpec:
+		return nil, errNilDeref{fmt.Sprintf("field %s of nil", name)}
+	}
 	return nil, fmt.Errorf("cannot select field %s of %T", name, base)
 }
 
@@ -348,6 +394,15 @@ func (x *Exec) evalBinop(env *Env, e *Expr) (Val, error) {
 	}
 	bv, err := x.eval1(env, e.Args[1])
 	if err != nil {
+		// a guarded partial expression: "A ==> (something of nil)" can only hold when A is false
+		if _, isNil := err.(errNilDeref); isNil && (op == "==>" || op == "&&") {
+			if a, ok := x.autoDeref(env, av).(*Term); ok && a.Sort == SBool {
+				if op == "==>" {
+					return Not(a), nil
+				}
+				return False, nil
+			}
+		}
 		return nil, err
 	}
 	av, bv = x.autoDeref(env, av), x.autoDeref(env, bv)
@@ -418,6 +473,11 @@ func pow10Term(k *Term) *Term {
 
 func (x *Exec) evalCall(env *Env, e *Expr) (Val, error) {
 	name := e.Name
+	if i := strings.LastIndex(name, "."); i > 0 {
+		if d := x.prog.defines[name[i+1:]]; d != nil && len(d.Params) == len(e.Args) {
+			name = name[i+1:]
+		}
+	}
 	// user defines (macros)
 	if d := x.prog.defines[name]; d != nil && len(d.Params) == len(e.Args) && len(d.Params) > 0 {
 		sub := &Env{x: x, vars: map[string]Val{}, cur: env.cur, old: env.old, st: env.st, mem: env.mem, oldMem: env.oldMem, pkg: env.pkg, inOld: env.inOld}
@@ -674,6 +734,22 @@ func (x *Exec) evalCall(env *Env, e *Expr) (Val, error) {
 			as = append(as, t)
 		}
 		return UF(e.Args[0].Str, SInt, as...), nil
+	case "ufbytes", "ufstr":
+		if len(e.Args) < 1 || e.Args[0].Kind != "str" {
+			return nil, fmt.Errorf("%s needs a name", name)
+		}
+		var as []*Term
+		for i := 1; i < len(e.Args); i++ {
+			t, err := argT(i)
+			if err != nil {
+				return nil, err
+			}
+			as = append(as, t)
+		}
+		if name == "ufstr" {
+			return UF(e.Args[0].Str, SStr, as...), nil
+		}
+		return UF(e.Args[0].Str, SBytes, as...), nil
 	case "ufb":
 		if len(e.Args) < 1 || e.Args[0].Kind != "str" {
 			return nil, fmt.Errorf("ufb needs a name")
